@@ -262,6 +262,21 @@ Example c01_hypotheses_satisfiable :
   | Panic _ => False
   end.
 Proof. vm_compute. repeat split; reflexivity. Qed.
+
+(* ... and the hypotheses of the generated-code theorems: the generator succeeds on it (the nesting of inlined
+   states is within its fuel), every state has distinct character keys, every context automaton passes its side
+   conditions, and the code has the four arms of its four states that are not inlined *)
+Example c01_generated_code_hypotheses_satisfiable :
+  match compile builtin_table MAX_GUARD_SIZE d_example with
+  | Ok c => match gen_program (c_program c) with
+            | Ok gp => chars_nodup_b (c_program c) = true /\\
+                       forallb ctx_code_ok_b (p_ctxs (c_program c)) = true /\\
+                       (2 <=? length (gp_arms gp)) = true /\\ length (gp_ctxs gp) = 1
+            | Panic _ => False
+            end
+  | Panic _ => False
+  end.
+Proof. vm_compute. repeat split; reflexivity. Qed.
 """
 
 files = {}
@@ -289,7 +304,7 @@ Corollary c01_longest : forall (benv : builtin_env) rules w r k e,
 Proof. exact select_longest. Qed.
 """ + sim_thm("c01") + E2E,
   ["c01_flags_sound", "c01_flags_precise", "c01_flags_sound_needs_targets_ok", "c01_select_is_maximal_munch",
-   "c01_select_none", "c01_select_complete", "c01_longest"] + COMMON("c01") + ["c01_lexer_correct", "c01_certificates_sound", "c01_lexer_correct_model", "c01_hypotheses_satisfiable"])
+   "c01_select_none", "c01_select_complete", "c01_longest"] + COMMON("c01") + ["c01_lexer_correct", "c01_certificates_sound", "c01_lexer_correct_model", "c01_hypotheses_satisfiable", "c01_generated_code_hypotheses_satisfiable"])
 
 files["C04"] = ("""(* C04 Right context gates a match without consuming input. *)
 """ + IMPORTS + """
